@@ -41,6 +41,36 @@ def _alarm(signum, frame):
     raise CaseTimeout()
 
 
+# Documented default values of the public API (from the signatures / docstrings of the pinned release - a literal table, NOT read from the
+# code under test, so that a change of a default is seen). Whenever a check passes one of these keywords with exactly its documented default,
+# every second such call of the case is made WITHOUT the keyword: callers who rely on the default must get the same behaviour.
+DOCUMENTED_DEFAULTS = {
+    "bottleneck": {"matching": False}, "wasserstein": {"matching": False}, "heat": {"sigma": 0.4}, "sliced_wasserstein": {"M": 50},
+    "persistent_entropy": {"keep_inf": False, "val_inf": None, "normalize": False},
+    "PersistenceImager.fit": {"skew": True}, "PersistenceImager.transform": {"skew": True, "n_jobs": None}, "PersistenceImager.fit_transform": {"skew": True},
+    "PersistenceImager": {"birth_range": (0.0, 1.0), "pers_range": (0.0, 1.0), "pixel_size": 0.2, "weight_params": {"n": 1.0},
+                          "kernel_params": {"sigma": [[1.0, 0.0], [0.0, 1.0]]}},
+    "PersLandscapeExact": {"hom_deg": 0, "compute": True}, "PersLandscapeApprox": {"hom_deg": 0, "num_steps": 500, "start": None, "stop": None, "compute": True},
+    "PersistenceLandscaper": {"hom_deg": 0, "start": None, "stop": None, "num_steps": 500, "flatten": False},
+    "vectorize": {"start": None, "stop": None, "num_steps": 500}, "death_vector": {"hom_deg": 0},
+    "plot_diagrams": {"plot_only": None, "title": None, "xy_range": None, "labels": None, "diagonal": True, "lifetime": False, "legend": True, "show": False, "ax": None},
+    "bottleneck_matching": {"ax": None}, "wasserstein_matching": {"ax": None},
+}
+
+
+def _is_default(v, d):
+    if v is None or d is None:
+        return v is None and d is None
+    if isinstance(d, bool) or isinstance(v, bool):
+        return isinstance(d, bool) and isinstance(v, bool) and v == d
+    if isinstance(d, (int, float)) and not isinstance(v, (int, float)):
+        return False
+    try:
+        return type(v) in (type(d), tuple, list, dict, int, float) and v == d
+    except Exception:  # noqa: BLE001 - arrays etc. are never "the default literal"
+        return False
+
+
 class Ctx:
     """Per-case recorder handed to ``check``."""
 
@@ -49,6 +79,7 @@ class Ctx:
         self.is_nontrivial = False
         self.notes = {}
         self.cross_value = None
+        self._default_calls = 0
 
     def value(self, v):
         """A result that must be identical in every shard process (e.g. under every hash seed)."""
@@ -76,6 +107,14 @@ class Ctx:
         here: they propagate and are reported as harness errors (exit 2)."""
         import signal
         armed = False
+        if k:
+            dd = DOCUMENTED_DEFAULTS.get(getattr(fn, "__qualname__", None) or "")
+            if dd and any(kk in dd and _is_default(vv, dd[kk]) for kk, vv in k.items()):
+                self._default_calls += 1
+                if self._default_calls % 2 == 0:
+                    k = {kk: vv for kk, vv in k.items() if not (kk in dd and _is_default(vv, dd[kk]))}
+                    if "documented_default_omitted" not in self.labels:
+                        self.labels.append("documented_default_omitted")
         if CASE_TIME_LIMIT > 0 and hasattr(signal, "setitimer") and not getattr(self, "_in_call", False):
             try:
                 old = signal.signal(signal.SIGALRM, _alarm)
